@@ -474,12 +474,13 @@ Definition sz_decompressor_precheck (methods : list bytes) (has_password : bool)
 
 (* Worker.extract_single over the members of one folder, given the decoded folder stream that the
    decoders can produce (all of it).  Worker.decompress loops `while out_remaining > 0` calling the
-   decoder; when the decoders have nothing more to give the loop never ends: Err EFuel = the call hangs.
-   CRC is compared AFTER the member's bytes have been written to the output. *)
+   decoder; when the decoders have nothing more to give and no input is left, MAX_STALLED_ROUNDS = 16 empty
+   rounds are tolerated, then Bad7zFile("unexpected end of compressed stream") is raised (before that
+   repair the loop never ended).  CRC is compared AFTER the member's bytes have been written to the output. *)
 Fixpoint extract_members (stream : bytes) (sizes crcs : list Z) : res (list bytes) :=
   match sizes, crcs with
   | n :: ns, c :: cs =>
-      if blen stream <? n then Err EFuel
+      if blen stream <? n then Err EBad7z
       else
         let g := takeZ n stream in
         if crc32 g =? c then
